@@ -12,6 +12,7 @@
 //!   ps  [n, pseed, rg, per, t, p]    rg = 0: ironbeam's writer; rg > 0: parquet writer with that max row-group size
 //!   gl  [fmt, h, pat, files, pseed]  files = [[[component..], count]..]; count -1 = a directory
 //!   jf  [k]                          the float k as f64 (|k| < 2^53, exact) through JSONL, CSV, Parquet
+//!   jb  [hi, lo]                     the finite f64 with bit pattern hi * 2^32 + lo through JSONL, CSV, Parquet
 use ibv::{Emitter, SplitMix64, Tier, drive, ok};
 use ironbeam::io::csv::build_csv_shards;
 use ironbeam::io::jsonl::build_jsonl_shards;
@@ -58,7 +59,7 @@ const I64S: &[i64] = &[i64::MIN, i64::MIN + 1, -1, 0, 1, i64::MAX, i64::MAX - 1,
 const U64S: &[u64] = &[0, 1, u64::MAX, u64::MAX - 1, 9_007_199_254_740_993, 1 << 63, (1 << 63) - 1, 4_294_967_296];
 const F64S: &[f64] = &[
     0.0, -0.0, 1.0, -1.0, 1.5, -2.25, 0.5, 0.125, 1024.0, 9_007_199_254_740_992.0,
-    -4_503_599_627_370_496.0, 1e15, 3.0e10, 6.103_515_625e-5, -0.0078125, 4_294_967_296.5,
+    -4_503_599_627_370_496.0, -9_007_199_254_740_991.0, 1_801_439_850_948_199.0, f64::MAX, f64::MIN, f64::MIN_POSITIVE, 5e-324, 0.1, 1e-7, 2.5e-308, 1e15, 3.0e10, 6.103_515_625e-5, -0.0078125, 4_294_967_296.5,
 ];
 
 fn mk_rec(pseed: u64, id: u64) -> Rec {
@@ -81,9 +82,12 @@ fn mk_rec(pseed: u64, id: u64) -> Rec {
     let u = if r.chance(2, 3) { *r.pick(U64S) } else { r.next_u64() };
     let f = if r.chance(3, 4) {
         *r.pick(F64S)
-    } else {
+    } else if r.chance(1, 2) {
         // k / 2^j with |k| < 2^20: exactly representable, short decimal expansion
         (r.range(-(1 << 20), 1 << 20) as f64) / f64::from(1u32 << r.below(11))
+    } else {
+        // any finite double (random sign, exponent, mantissa)
+        f64::from_bits((r.next_u64() & 0x800F_FFFF_FFFF_FFFF) | (r.below(0x7FF) << 52))
     };
     Rec { id, s, i, u, f, t }
 }
@@ -357,9 +361,15 @@ fn run(kind: &str, input: &Value) -> Value {
                 Err(_) => json!(["panic"]),
             }
         }
-        "jf" => {
-            let k = input[0].as_i64().unwrap();
-            let f = k as f64;
+        "jf" | "jb" => {
+            let f = if kind == "jf" {
+                input[0].as_i64().unwrap() as f64
+            } else {
+                f64::from_bits((input[0].as_u64().unwrap() << 32) | (input[1].as_u64().unwrap() & 0xFFFF_FFFF))
+            };
+            if !f.is_finite() {
+                return json!(["invalid"]);
+            }
             let data = vec![Rec { id: 0, s: String::new(), i: 0, u: 0, f, t: String::new() }];
             let (pj, pc, pp) = (sc.p("f.jsonl"), sc.p("f.csv"), sc.p("f.parquet"));
             ironbeam::helpers::jsonl::write_jsonl_vec(&pj, &data).unwrap();
@@ -588,8 +598,8 @@ fn generate(seed: u64, tier: Tier, em: &mut Emitter) {
         let nt = files.len() >= 2;
         em.case("gl", json!([fmt, rng.chance(1, 2), pat, files, rng.below(1 << 20)]), nt, &["random", "glob"]);
     }
-    // 6. integer-valued floats through every format (serde_json's default float parser is not
-    //    correctly rounded above 2^53 / 10 significand digits: see the known finding)
+    // 6. floats through every format. Integer-valued ones first: before commit dbceed9 serde_json's
+    //    default parser (two roundings) lost e.g. 9007199254740991.0 and 1801439850948199.0
     let p53: i64 = 1 << 53;
     let mut ks: Vec<i64> = vec![0, 1, -1, p53 - 1, -(p53 - 1), p53 - 2, p53 - 3, 1 << 52, (1 << 52) + 1,
         1_801_439_850_948_199, 1_801_439_850_948_197, 1_801_439_850_948_198, 1_801_439_850_948_201,
@@ -607,6 +617,39 @@ fn generate(seed: u64, tier: Tier, em: &mut Emitter) {
     }
     for k in ks {
         em.case("jf", json!([k]), k.abs() > 1, &["float", "jsonl-float"]);
+    }
+    // every finite f64 must come back bit-exact: extremes, subnormals, powers of two and ten and
+    // their neighbours, then random bit patterns (uniform over sign / exponent / mantissa)
+    let mut bits: Vec<u64> = vec![
+        0, 1 << 63, 1, 2, (1 << 63) | 1, 0x000F_FFFF_FFFF_FFFF, 0x0010_0000_0000_0000, 0x0010_0000_0000_0001,
+        0x7FEF_FFFF_FFFF_FFFF, 0xFFEF_FFFF_FFFF_FFFF, 0x7FEF_FFFF_FFFF_FFFE, 0x7FE0_0000_0000_0000,
+        0x3FF0_0000_0000_0000, 0x3FF0_0000_0000_0001, 0x3FEF_FFFF_FFFF_FFFF, 0x3FB9_9999_9999_999A,
+        0x3FD5_5555_5555_5555, 0x4340_0000_0000_0000, 0x433F_FFFF_FFFF_FFFF, 0x4340_0000_0000_0001,
+        0x4009_21FB_5444_2D18, 0x0000_0000_0000_0FFF, 0x8000_0000_0010_0000, 0x0008_0000_0000_0000,
+    ];
+    for e in [-323i32, -308, -307, -100, -22, -5, 0, 15, 16, 17, 22, 23, 100, 300, 308] {
+        let f = format!("1e{e}").parse::<f64>().unwrap();
+        bits.extend([f.to_bits() - 1, f.to_bits(), f.to_bits() + 1]);
+        let g = format!("9.007199254740993e{e}").parse::<f64>().unwrap();
+        if g.is_finite() {
+            bits.push(g.to_bits());
+        }
+    }
+    let nb = if thorough { 6000 } else { 600 };
+    for i in 0..nb {
+        let mut b = rng.next_u64();
+        match i % 4 {
+            0 => b &= 0x800F_FFFF_FFFF_FFFF,                               // subnormal
+            1 => b = (b & 0x800F_FFFF_FFFF_FFFF) | (rng.below(0x7FF) << 52), // any finite exponent
+            2 => b = (b & 0x800F_FFFF_FFFF_FFFF) | ((0x3FF - 70 + rng.below(140)) << 52), // human scale
+            _ => {}
+        }
+        bits.push(b);
+    }
+    for b in bits {
+        if f64::from_bits(b).is_finite() {
+            em.case("jb", json!([b >> 32, b & 0xFFFF_FFFF]), true, &["float", "float-bits"]);
+        }
     }
 }
 
